@@ -3,7 +3,7 @@ from __future__ import annotations
 
 from typing import Any, Dict, List
 
-from sim.gen_worker import gen_worker_script
+from sim.gen_worker import gen_worker_script, tier_knobs
 from sim.worker_world import enc_labels
 from ._wcommon import (ASSUMPTIONS, COMPONENTS_REAL, COMPONENTS_STUB, Hist, Violation, default_nontrivial,  # noqa: F401
                        simplifications, simulate)
@@ -44,7 +44,7 @@ KNOBS = {
 
 
 def gen(rs: int, tier: str, index: int) -> dict:
-    s = gen_worker_script(rs, KNOBS)
+    s = gen_worker_script(rs, tier_knobs(KNOBS, tier, index))
     from sim.rng import stream
     r = stream(rs, "c06")
     # broker.dependency_overrides: replace a dependency by one that brings its own (possibly un-cached, Context-using) sub-dependencies
